@@ -25,6 +25,13 @@ import (
 //verif:guarded ControlManager mu ctlsByRunID
 //verif:guarded Control mu proxies portsUsedNum
 
+// C16 "mutexes around every shared map": every method of these types (and every
+// function literal inside them), whether or not it has a contract of its own,
+// is swept for accesses to the guarded fields without the lock.
+//
+//verif:sweep-type ControlManager props=C16 kinds=lock
+//verif:sweep-type Control props=C16 kinds=lock
+
 // ---------------------------------------------------------------- C11 / C16
 
 // NewControl: the number of work connections asked for in advance never
@@ -453,4 +460,106 @@ func verif_heartbeat_watchdog() {
 	silent := verif.Ret[time.Duration]("time.Since", 0)
 	verif.Ensures(verif.Called("time.Since"), "age_of_the_last_heartbeat_is_measured")
 	verif.Ensures(verif.Called("Conn).Close") == (silent > limit), "closed_iff_silent_longer_than_the_timeout")
+}
+
+// ---------------------------------------------------------------- C16: no-panic sweeps
+
+// Peer-facing functions run with arbitrary arguments and arbitrary reachable
+// state; every runtime-panic condition met on the way (nil dereference, index,
+// slice bounds, failed type assertion, nil map write, negative make, division
+// by zero, send on / close of a closed channel) is an obligation.
+//
+//verif:sweep (*~/server.Service).HandleListener props=C16 kinds=nopanic
+//verif:sweep (*~/pkg/nathole.Controller).HandleClient props=C16 kinds=nopanic
+//verif:sweep (*~/pkg/nathole.Controller).HandleReport props=C16 kinds=nopanic
+//verif:sweep (*~/pkg/nathole.Controller).GenSid props=C16 kinds=nopanic
+//verif:sweep (*~/pkg/nathole.Controller).CleanWorker props=C16 kinds=nopanic
+//verif:sweep (*~/pkg/nathole.Controller).analysis props=C16 kinds=nopanic
+//verif:sweep (*~/pkg/util/vhost.Muxer).handle props=C16 kinds=nopanic
+//verif:sweep (*~/pkg/util/vhost.Muxer).run props=C16 kinds=nopanic
+//verif:sweep (*~/pkg/util/tcpmux.HTTPConnectTCPMuxer).getHostFromHTTPConnect props=C16 kinds=nopanic
+//verif:sweep ~/pkg/util/net.CheckAndEnableTLSServerConnWithTimeout props=C16 kinds=nopanic
+//verif:sweep ~/pkg/proto/udp.ForwardUserConn props=C16 kinds=nopanic
+//verif:sweep ~/pkg/proto/udp.Forwarder props=C16 kinds=nopanic
+//verif:sweep ~/pkg/proto/udp.GetContent props=C16 kinds=nopanic
+//verif:sweep ~/pkg/nathole.DecodeMessageInto props=C16 kinds=nopanic
+//verif:sweep ~/pkg/nathole.EncodeMessage props=C16 kinds=nopanic
+//verif:sweep (*~/pkg/transport.transporterImpl).Dispatch props=C16 kinds=nopanic
+//verif:sweep (*~/pkg/transport.transporterImpl).DispatchWithType props=C16 kinds=nopanic
+
+// ---------------------------------------------------------------- C16: handlers and the types they are registered for
+
+// The dispatcher hands a message to the handler registered for its dynamic
+// type (pkg/msg readLoop); every handler starts with an unchecked type
+// assertion, so a handler registered under another type would panic on the
+// first such message. registerMsgHandlers registers each handler under exactly
+// the type it asserts, and nothing else.
+//
+//verif:contract (*~/server.Control).registerMsgHandlers
+//verif:props C16 C17
+func verif_registerMsgHandlers(ctl *Control) {
+	verif.Requires(msg.VerifDispatcherOK(ctl.msgDispatcher), "dispatcher_built")
+	verif.ResetEvents()
+	ctl.registerMsgHandlers()
+	const ev = "Dispatcher).RegisterHandler"
+	verif.Ensures(verif.CallCount(ev) == 6, "six_message_types_handled")
+	_, t0 := verif.NthArg[msg.Message](ev, 0, 1).(*msg.NewProxy)
+	_, t1 := verif.NthArg[msg.Message](ev, 1, 1).(*msg.Ping)
+	_, t2 := verif.NthArg[msg.Message](ev, 2, 1).(*msg.NatHoleVisitor)
+	_, t3 := verif.NthArg[msg.Message](ev, 3, 1).(*msg.NatHoleClient)
+	_, t4 := verif.NthArg[msg.Message](ev, 4, 1).(*msg.NatHoleReport)
+	_, t5 := verif.NthArg[msg.Message](ev, 5, 1).(*msg.CloseProxy)
+	verif.Ensures(t0 && verif.HandlerName(verif.NthArg[func(msg.Message)](ev, 0, 2)) == "handleNewProxy", "new_proxy_to_its_handler")
+	verif.Ensures(t1 && verif.HandlerName(verif.NthArg[func(msg.Message)](ev, 1, 2)) == "handlePing", "ping_to_its_handler")
+	verif.Ensures(t2 && verif.HandlerName(verif.NthArg[func(msg.Message)](ev, 2, 2)) == "handleNatHoleVisitor", "nat_hole_visitor_to_its_handler")
+	verif.Ensures(t3 && verif.HandlerName(verif.NthArg[func(msg.Message)](ev, 3, 2)) == "handleNatHoleClient", "nat_hole_client_to_its_handler")
+	verif.Ensures(t4 && verif.HandlerName(verif.NthArg[func(msg.Message)](ev, 4, 2)) == "handleNatHoleReport", "nat_hole_report_to_its_handler")
+	verif.Ensures(t5 && verif.HandlerName(verif.NthArg[func(msg.Message)](ev, 5, 2)) == "handleCloseProxy", "close_proxy_to_its_handler")
+}
+
+// The handlers, given the type they are registered for, do not panic whatever
+// the message's field values are (obligations nopanic.* of these units).
+//
+//verif:contract (*~/server.Control).handleNewProxy
+//verif:props C16
+func verif_handleNewProxy(ctl *Control, m msg.Message) {
+	_, ok := m.(*msg.NewProxy)
+	verif.Requires(ok, "dispatcher_delivers_registered_type")
+	verif.Requires(ctl.loginMsg != nil && ctl.msgDispatcher != nil, "constructed_by_NewControl")
+	ctl.handleNewProxy(m)
+}
+
+//verif:contract (*~/server.Control).handleCloseProxy
+//verif:props C16
+func verif_handleCloseProxy(ctl *Control, m msg.Message) {
+	_, ok := m.(*msg.CloseProxy)
+	verif.Requires(ok, "dispatcher_delivers_registered_type")
+	ctl.handleCloseProxy(m)
+}
+
+//verif:contract (*~/server.Control).handleNatHoleVisitor
+//verif:props C16
+func verif_handleNatHoleVisitor(ctl *Control, m msg.Message) {
+	_, ok := m.(*msg.NatHoleVisitor)
+	verif.Requires(ok, "dispatcher_delivers_registered_type")
+	verif.Requires(ctl.loginMsg != nil && ctl.rc != nil && ctl.rc.NatHoleController != nil, "constructed_by_NewControl")
+	ctl.handleNatHoleVisitor(m)
+}
+
+//verif:contract (*~/server.Control).handleNatHoleClient
+//verif:props C16
+func verif_handleNatHoleClient(ctl *Control, m msg.Message) {
+	_, ok := m.(*msg.NatHoleClient)
+	verif.Requires(ok, "dispatcher_delivers_registered_type")
+	verif.Requires(ctl.rc != nil && ctl.rc.NatHoleController != nil, "constructed_by_NewControl")
+	ctl.handleNatHoleClient(m)
+}
+
+//verif:contract (*~/server.Control).handleNatHoleReport
+//verif:props C16
+func verif_handleNatHoleReport(ctl *Control, m msg.Message) {
+	_, ok := m.(*msg.NatHoleReport)
+	verif.Requires(ok, "dispatcher_delivers_registered_type")
+	verif.Requires(ctl.rc != nil && ctl.rc.NatHoleController != nil, "constructed_by_NewControl")
+	ctl.handleNatHoleReport(m)
 }
